@@ -552,7 +552,11 @@ fn check_hash_index(c: &IndexCase) -> CaseResult {
         out
     })?;
     for (i, v) in canon.iter().enumerate() {
-        let want: Vec<usize> = cur.iter().enumerate().filter(|(_, w)| *w == v).map(|(j, _)| j).collect();
+        // The store's property index answers like the scan path, i.e. by `Value`'s own equality (IEEE on floats:
+        // 0.0 == -0.0, NaN != NaN) — repo fix 6dd9579 made the index agree with the scan (C14). "Equal" for this
+        // consequence is therefore Value equality, not the bitwise identity of HashableValue.
+        let vq = v.to_value();
+        let want: Vec<usize> = cur.iter().enumerate().filter(|(_, w)| w.to_value() == vq).map(|(j, _)| j).collect();
         if found[i] != want {
             let extra = found[i].iter().find(|j| !want.contains(j));
             let sig = match extra {
